@@ -478,6 +478,109 @@ def main(out_path):
         raise TranslateError("fetch_is_ok no longer compares the marker file with CARGO_OK_BODY")
     L.append("")
 
+    # --- store / cache locking: the order of lock, reads, writes and release
+    flock = strip_comments(read("src/flock.rs"))
+    sl = item_body(storage, r"\bimpl\s+StoreLock\s*\{", "impl StoreLock")
+    new_body = fn_body(sl, "new")
+    m_open = re.search(r"store\s*\.\s*(open_rw|open_ro)\s*\(\s*CONFIG_TOML", new_body)
+    if not m_open:
+        raise TranslateError("StoreLock::new no longer opens CONFIG_TOML through Filesystem::open_rw/open_ro")
+
+    def lock_state(fn):
+        b = fn_body(flock, fn)
+        m = re.search(r"State::(Exclusive|Shared|Unlocked)", b)
+        if not m or not re.search(r"self\s*\.\s*open\s*\(", b):
+            raise TranslateError(f"flock.rs {fn} no longer delegates to Filesystem::open with a lock State")
+        return m.group(1)
+    open_body = fn_body(flock, "open")
+    arm = re.search(r"State::Exclusive\s*=>\s*\{", open_body)
+    if not arm:
+        raise TranslateError("Filesystem::open has no State::Exclusive arm")
+    arm_body = open_body[arm.end() - 1:match_brace(open_body, arm.end() - 1)]
+    excl_arm = bool(re.search(r"acquire\s*\(", arm_body)) and "lock_exclusive(&f)" in arm_body
+    sysmod = item_body(flock, r"#\[cfg\(unix\)\]\s*mod\s+sys\s*\{", "unix mod sys")
+    excl_sys = bool(re.search(r"flock\s*\(\s*file\s*,\s*libc::LOCK_EX\s*\)", fn_body(sysmod, "lock_exclusive"))) and \
+        bool(re.search(r"flock\s*\(\s*file\s*,\s*libc::LOCK_EX\s*\|\s*libc::LOCK_NB\s*\)", fn_body(sysmod, "try_lock_exclusive")))
+    # acquire(): a failed lock attempt must end in the blocking call (or an error), never in Ok without the lock
+    acq = fn_body(flock, "acquire")
+    blocks = bool(re.search(r"lock_block\(\)\?;\s*return\s+Ok\(\(\)\);", acq)) and \
+        bool(re.search(r"if\s*!\s*error_contended\(&e\)\s*\{\s*return\s+Err", acq))
+    drop_impl = item_body(flock, r"\bimpl\s+Drop\s+for\s+FileLock\s*\{", "impl Drop for FileLock")
+    drop_unlocks = "unlock(&f)" in drop_impl
+
+    def exclusive(fn):
+        return lock_state(fn) == "Exclusive" and excl_arm and excl_sys and blocks
+    store_excl = exclusive(m_open.group(1))
+
+    FILE_IDX = {"config": 0, "audits": 1, "imports": 2}
+    acq_off = fn_body(storage, "acquire_offline")
+    ev = []
+    m = re.search(r"StoreLock::new\(", acq_off)
+    if not m:
+        raise TranslateError("Store::acquire_offline no longer takes the StoreLock")
+    ev.append((m.start(), "ALock"))
+    for nm, ix in FILE_IDX.items():
+        ms = list(re.finditer(r"lock\.read_%s\(\)" % nm, acq_off))
+        if len(ms) != 1:
+            raise TranslateError(f"Store::acquire_offline: expected exactly one lock.read_{nm}()")
+        ev.append((ms[0].start(), f"ARead {ix}"))
+    for mm in re.finditer(r"\bdrop\(\s*lock\s*\)", acq_off):
+        ev.append((mm.start(), "AUnlock"))
+    m = re.search(r"lock:\s*Some\(lock\)", acq_off)
+    if not m:
+        raise TranslateError("Store::acquire_offline no longer keeps the lock in the returned Store")
+    acquire_acts = [a for _, a in sorted(ev)]
+
+    com = fn_body(storage, "commit")
+    m = re.search(r"if\s+let\s+Some\(lock\)\s*=\s*self\.lock\s*\{", com)
+    if not m:
+        raise TranslateError("Store::commit no longer takes the lock out of the Store for the duration of the writes")
+    blk_end = match_brace(com, m.end() - 1)
+    blk = com[m.end():blk_end]
+    ev = []
+    handles = {}
+    for nm, ix in FILE_IDX.items():
+        ms = list(re.finditer(r"let\s+mut\s+(\w+)\s*=\s*lock\.write_%s\(\)" % nm, blk))
+        if len(ms) != 1:
+            raise TranslateError(f"Store::commit: expected exactly one lock.write_{nm}()")
+        handles[ms[0].group(1)] = ix
+    for h, ix in handles.items():
+        ws = list(re.finditer(r"\b%s\.write_all\(" % h, blk))
+        if not ws:
+            raise TranslateError(f"Store::commit: handle {h} is never written")
+        ev.append((ws[-1].start(), f"AWrite {ix}"))
+    for mm in re.finditer(r"\bdrop\(\s*lock\s*\)", blk):
+        ev.append((mm.start(), "AUnlock"))
+    if not any(a == "AUnlock" for _, a in ev):
+        ev.append((len(blk), "AUnlock"))            # `lock` goes out of scope at the end of the block
+    for nm in FILE_IDX:
+        if re.search(r"write_%s\(\)" % nm, com[:m.start()] + com[blk_end:]):
+            raise TranslateError("Store::commit writes a store file outside the block that holds the lock")
+    commit_acts = [a for _, a in sorted(ev)]
+
+    cache_acq = fn_body(item_body(storage, r"\bimpl\s+Cache\s*\{", "impl Cache"), "acquire")
+    m = re.search(r"\.\s*(open_rw|open_ro)\s*\(\s*CACHE_VET_LOCK", cache_acq)
+    if not m:
+        raise TranslateError("Cache::acquire no longer locks CACHE_VET_LOCK")
+    i_lock = m.start()
+    first_io = min([x for x in (cache_acq.find("File::open("), cache_acq.find("load_toml("), cache_acq.find("load_json(")) if x >= 0] or [-1])
+    cache_lock_first = 0 <= i_lock < first_io and bool(re.search(r"_lock:\s*Some\(lock\)", cache_acq))
+    cache_excl = exclusive(m.group(1)) and cache_lock_first
+    cache_struct = item_body(storage, r"\bpub\s+struct\s+Cache\s*\{", "struct Cache")
+    if not re.search(r"_lock:\s*Option<FileLock>", cache_struct):
+        raise TranslateError("struct Cache no longer owns its FileLock")
+
+    L.append("(* store locking: Store::acquire_offline / Store::commit as sequences of lock, read, write and")
+    L.append("   release actions (file 0 = config.toml, 1 = audits.toml, 2 = imports.lock), in source order;")
+    L.append("   AWrite f stands at the last write_all of file f, AUnlock where the StoreLock value dies *)")
+    L.append("Inductive act := ALock | ARead (f : nat) | AWrite (f : nat) | AUnlock.")
+    L.append("Definition STORE_ACQUIRE_ACTS : list act := [" + "; ".join(acquire_acts) + "].")
+    L.append("Definition STORE_COMMIT_ACTS : list act := [" + "; ".join(commit_acts) + "].")
+    L.append(f"Definition STORE_LOCK_EXCLUSIVE : bool := {'true' if store_excl else 'false'}.")
+    L.append(f"Definition CACHE_LOCK_EXCLUSIVE : bool := {'true' if cache_excl else 'false'}.")
+    L.append(f"Definition FILELOCK_DROP_UNLOCKS : bool := {'true' if drop_unlocks else 'false'}.")
+    L.append("")
+
     # --- storage constants
     m = re.search(r"let\s+max_end_date\s*=\s*today\s*\+\s*chrono::Months::new\((\d+)\)", storage)
     if not m:
